@@ -159,6 +159,20 @@ func (p *SyncedPool) Flush(id []byte) error {
 }
 
 func (p *SyncedPool) flush(id []byte) error {
+	// write dirty flags into every DB (also into the ones queued for dropping) before anything else:
+	// a crash right after a drop must not look like the previous clean flush
+	for _, w := range p.wrappers {
+		db, err := w.Flushable.InitUnderlyingDb()
+		if err != nil {
+			return err
+		}
+
+		err = MarkFlushID(db, p.flushIDKey, DirtyPrefix, id)
+		if err != nil {
+			return err
+		}
+	}
+
 	queuedDropsList := p.popQueuedDrops()
 	// close and drop DBs
 	for _, name := range queuedDropsList {
@@ -176,19 +190,6 @@ func (p *SyncedPool) flush(id []byte) error {
 			continue
 		}
 		db.Drop()
-	}
-
-	// write dirty flags
-	for _, w := range p.wrappers {
-		db, err := w.Flushable.InitUnderlyingDb()
-		if err != nil {
-			return err
-		}
-
-		err = MarkFlushID(db, p.flushIDKey, DirtyPrefix, id)
-		if err != nil {
-			return err
-		}
 	}
 
 	// flush data
